@@ -1,4 +1,5 @@
 import Resgate.Proofs.Throttle
+import Resgate.Proofs.GwThrottle
 
 /-
 C19 — Throttles bound outstanding requests and never stall.  (The throttle itself.)
@@ -36,8 +37,39 @@ theorem done_starts_next (t : Resgate.Throttle) (hi : Inv t) (hl : 0 < t.limit) 
 theorem waiting_implies_full (t : Resgate.Throttle) (hi : Inv t) (hq : t.queue ≠ []) :
     t.running = t.limit := hi.2.2 hq
 
+/-- Every governed request is eventually sent, whatever the answer order: the throttle does not
+    see which request an answer belongs to, so "every started request has been answered" is
+    `#Done = #started`; then nothing waits, nothing runs and everything added was started, in the
+    order it was added. -/
+theorem all_governed_eventually_sent (limit : Int) (hl : 0 < limit) (ops : List TOp)
+    (t' : Resgate.Throttle) (out : List Nat)
+    (h : (Resgate.Throttle.new limit).run ops = some (t', out)) (hall : nDone ops = out.length) :
+    t'.queue = [] ∧ t'.running = 0 ∧ out = addsOf ops :=
+  all_answered_all_started limit hl ops t' out h hall
+
+/-- … and that point is always reachable: from every state the invariant allows, the answers of
+    the outstanding requests (`running + waiting` of them) start every waiting callback in order
+    and leave nothing running; none of them panics. -/
+theorem answers_drain_the_throttle (t : Resgate.Throttle) (hi : Inv t) (hl : 0 < t.limit) :
+    t.run (dones (t.running.toNat + t.queue.length))
+      = some ({ t with running := 0, queue := [] }, t.queue) :=
+  drain t hi hl
+
+/-- The throttle the gateway model runs in the lockstep (its waiting callbacks are job ids: the
+    deferred get and access requests of a reset or of a reference tree) is this throttle: `Add`
+    and `Done` there are `step (.add _)` and `step .done` here — same panic, same successor state,
+    same callback started — so everything above holds for every throttle of the gateway model. -/
+theorem gateway_throttle_is_this_throttle (t : Gw.ThrottleS) (jid : Nat) :
+    t.toModel.step (.add jid) =
+      some (if t.full then ((t.enqueue jid).toModel, []) else (t.start.toModel, [jid])) ∧
+    t.toModel.step .done = t.done.map (fun p => (p.1.toModel, p.2.toList)) :=
+  ⟨Gw.ThrottleS.add_refines t jid, Gw.ThrottleS.done_refines t⟩
+
 -- Non-vacuity: limit 2, add 1 2 3, done → 1,2 start at once, 3 after the Done.
 example : (Resgate.Throttle.new 2).run [.add 1, .add 2, .add 3, .done]
     = some (⟨2, 2, []⟩, [1, 2, 3]) := by decide
+example : (Resgate.Throttle.new 2).run [.add 1, .add 2, .add 3, .done, .done, .done]
+    = some (⟨2, 0, []⟩, [1, 2, 3]) := by decide
+example : Inv ⟨2, 2, [7, 8]⟩ := by simp [Throttle.Inv]
 
 end Resgate.C19
